@@ -12,20 +12,28 @@ func ptraceReadStr(pid int, addr uintptr, buff []byte) {
 	syscall.PtracePeekData(pid, addr, buff)
 }
 
-func processVMReadv(pid int, localIov, remoteIov []unix.Iovec,
+// remoteIovec is struct iovec for memory of the tracee. Its base is an address in another process and must not be held
+// in a Go pointer: a value that happens to lie in this process's heap range is taken for a bad pointer by the garbage
+// collector, which aborts the whole process ("found bad pointer in Go heap").
+type remoteIovec struct {
+	base uintptr
+	len  uintptr
+}
+
+func processVMReadv(pid int, localIov []unix.Iovec, remoteIov *remoteIovec,
 	flags uintptr) (r1, r2 uintptr, err syscall.Errno) {
 	return syscall.Syscall6(unix.SYS_PROCESS_VM_READV, uintptr(pid),
 		uintptr(unsafe.Pointer(&localIov[0])), uintptr(len(localIov)),
-		uintptr(unsafe.Pointer(&remoteIov[0])), uintptr(len(remoteIov)),
+		uintptr(unsafe.Pointer(remoteIov)), 1,
 		flags)
 }
 
 func vmRead(pid int, addr uintptr, buff []byte) (int, error) {
 	l := len(buff)
 	localIov := getIovecs(&buff[0], l)
-	remoteIov := getIovecs((*byte)(unsafe.Pointer(addr)), l)
+	remoteIov := remoteIovec{base: addr, len: uintptr(l)}
 	verifVMRead()
-	n, _, err := processVMReadv(pid, localIov, remoteIov, uintptr(0))
+	n, _, err := processVMReadv(pid, localIov, &remoteIov, uintptr(0))
 	if err == 0 {
 		return int(n), nil
 	}
